@@ -13,7 +13,14 @@ capacities, hosting costs and routes (B-mode).  The ILP methods need plain numbe
 (PuLP): instances are drawn from small grids by a seeded generator (E-mode: the
 instance index is an enumerated choice).  ``GLPK_CMD`` is rebound in the module under
 check to PuLP's bundled CBC (glpsol is not installed); the MILP solver is an external
-under assumed contract."""
+under assumed contract.
+
+Frame obligations (labels ``<method>.<Cxx>.frame.*``, ``command.C23.frame.*``): distribute() is handed the computation
+graph, the agent definitions, the hints and two callables and only reads them.  ``Frame`` records what a caller can observe
+of each (node objects / names / neighbours / links; every agent's capacity, tables and route() / hosting_cost() answers;
+must_host() / host_with(); computation_memory / communication_load on every node and neighbour) before the call and
+compares after it, after a SECOND call on the same inputs (which answers to the same C23 / C24 obligations, labels tagged
+``second-call-on-the-same-inputs``) and after the returned Distribution objects were edited by their owner."""
 import importlib
 import io
 import itertools
@@ -285,8 +292,6 @@ def _same(a, b):
         return type(a) is type(b) and len(a) == len(b) and And([_same(x, y) for x, y in zip(a, b)])
     if isinstance(a, dict) and isinstance(b, dict):
         return set(a) == set(b) and And([_same(a[k], b[k]) for k in a])
-    if isinstance(a, (bool, int, float)) and isinstance(b, (bool, int, float)):
-        return type(a) is type(b) and a == b
     return bool(a == b)
 
 
@@ -602,7 +607,9 @@ Contract(
                  "footprints, capacities, hosting and route costs are >= 0 and routes symmetric (as the yaml loader builds them); "
                  "communication loads are concrete so that route * load stays linear",
                  "adhoc: shuffle explores at most max_perms orders of the nodes (2 on retries)",
-                 "heur_comhost / gh_cgdp on 3 computations: the random tie-breaks follow one fixed sequence (quick tier)"],
+                 "heur_comhost / gh_cgdp on 3 computations: the random tie-breaks follow one fixed sequence (quick tier)",
+                 "second call on the same inputs (frame): explored symbolically for oneagent and the 'second-call-*' shapes only, under the "
+                 "random draws of the first call; every sampled native run makes it with fresh draws"],
     budget=dict(all_failures=True, quick=dict(max_paths=1500, timeout_s=100), thorough=dict(max_paths=60000, timeout_s=900)),
     desc="oneagent, adhoc, heur_comhost, gh_cgdp on symbolic footprints/capacities/costs: a valid mapping (hosted once, declared agents, "
          "must-host, capacity) or ImpossibleDistributionException",
@@ -950,7 +957,8 @@ Contract(
     assumptions=["ILP methods: numeric instances are drawn by a seeded generator from small grids (footprints 0-3, tight/ample/short "
                  "capacities, hosting costs incl. default 0 and explicit zeros, symmetric routes 0-7, loads 0-3), not all reals",
                  "communication loads symmetric (as maxsum's); ilp_fgdp only on factor graphs (its documented domain)",
-                 "C24 oracle: brute-force enumeration of all agent^computation mappings under the method's own hard rules and distribution_cost"],
+                 "C24 oracle: brute-force enumeration of all agent^computation mappings under the method's own hard rules and distribution_cost",
+                 "second call on the same inputs (frame): every third instance of a shape and the special instances (a second MILP solve)"],
     budget=dict(all_failures=True, quick=dict(max_paths=400, timeout_s=200), thorough=dict(max_paths=4000, timeout_s=2000)),
     desc="oilp_cgdp, ilp_compref, ilp_fgdp on concrete grid instances: valid mapping or impossibility (C23); "
          "oilp_cgdp, ilp_fgdp cost-minimal against brute force (C24)",
